@@ -8,6 +8,7 @@
 #include <cocls/async.h>
 #include <cocls/future.h>
 #include <cocls/with_allocator.h>
+#include <cocls/thread_pool.h>
 
 using cocls::async;
 using cocls::future;
@@ -111,8 +112,84 @@ acoro<long> awaiting(St &s, Worker *w, long how, long npar, long a) {
     co_return r;
 }
 
+// ---------- deep co_await chains (op 3) ----------
+long g_levels = 0;
+async<long> chain(long depth) {
+    ++g_levels;
+    if (depth == 0) co_return 0;
+    long r = co_await chain(depth - 1);
+    co_return r + 1;
+}
+
+// ---------- exceptions through co_await, all result kinds (op 4) ----------
+struct api_exc { long e; };
+template <typename T> async<T> thrower(long thr, long v) {
+    if (thr) throw api_exc{v};
+    if constexpr (std::is_void_v<T>) co_return; else co_return make<T>(v);
+}
+template <typename T> async<long> catcher(long thr, long v, long *after) {
+    long out = 0;
+    try {
+        if constexpr (std::is_void_v<T>) { co_await thrower<T>(thr, v); }
+        else { T x = std::move(co_await thrower<T>(thr, v)); (void)x; }
+    } catch (api_exc &e) {
+        out = 1000 + e.e;
+    }
+    ++*after;
+    co_return out;
+}
+
+// ---------- thread_pool::run(async) (op 5) ----------
+async<int> pool_waiter(gate *g, std::atomic<int> *ran) {
+    ++*ran;
+    int v = co_await g->f;
+    co_return v + 1;
+}
+async<int> pool_setter(gate *g, int v) {
+    g->p(v);
+    co_return 0;
+}
+
 void run_op(const std::vector<long> &op) {
     auto rej = [] { vh::print_obs({1}); };
+    if (op.size() == 2 && op[0] == 3) {
+        long depth = op[1];
+        if (depth < 0 || depth > 1000000) return rej();
+        g_levels = 0;
+        long r = chain(depth).join();
+        vh::print_obs({0, r, g_levels});
+        return;
+    }
+    if (op.size() == 4 && op[0] == 4) {
+        long kind = op[1], thr = op[2], v = op[3];
+        if (kind < 0 || kind > 4 || thr < 0 || thr > 1) return rej();
+        long after = 0, r = 0;
+        switch (kind) {
+            case 0: r = catcher<int>(thr, v, &after).join(); break;
+            case 1: r = catcher<std::string>(thr, v, &after).join(); break;
+            case 2: r = catcher<std::vector<int>>(thr, v, &after).join(); break;
+            case 3: r = catcher<std::unique_ptr<int>>(thr, v, &after).join(); break;
+            case 4: r = catcher<void>(thr, v, &after).join(); break;
+        }
+        vh::print_obs({0, r, after});
+        return;
+    }
+    if (op.size() == 3 && op[0] == 5) {
+        long threads = op[1], v = op[2];
+        if (threads < 1 || threads > 3) return rej();
+        gate g;
+        std::atomic<int> ran{0};
+        long r;
+        {
+            cocls::thread_pool pool((unsigned)threads);
+            future<int> fw = pool.run(pool_waiter(&g, &ran));
+            future<int> fs = pool.run(pool_setter(&g, (int)v));
+            r = fw.join();
+            fs.join();
+        }
+        vh::print_obs({0, r, ran.load()});
+        return;
+    }
     if (op.size() == 4 && op[0] == 1) {
         long kind = op[1], susp = op[2], v = op[3];
         if (kind < 0 || kind > 4 || susp < 0 || susp > 2) return rej();
